@@ -716,7 +716,9 @@ func main() {
 			os.Exit(2)
 		}
 		chrooted := false
-		if err := syscall.Chroot(root); err == nil {
+		if os.Getenv("VERIF_C17_NOCHROOT") != "" {
+			// test hook: behave as if chroot were not permitted
+		} else if err := syscall.Chroot(root); err == nil {
 			if err := os.Chdir("/"); err == nil {
 				chrooted = true
 			}
